@@ -92,7 +92,11 @@ def judge(case, out):
     nkd_i, nkd_r = H.ref_negotiated_kd(ini, rsp)
     model = model_name(case)
     devs = dev_kinds(case)
-    base_sig = {'model': model, 'dev': devs}
+    # signatures name the fault / user-answer deviations when there are any (configuration deviations such as masks or
+    # bonding then only multiply re-observations of the same failure), else the configuration deviations
+    faults = [d for d in devs if d.startswith(('tamper:', 'i.', 'r.'))]
+    sig_devs = faults or devs
+    base_sig = {'model': model, 'dev': sig_devs}
     cell_sig = {'ini_io': H.IO_NAMES[ini['io']], 'rsp_io': H.IO_NAMES[rsp['io']], 'sc': sc, 'mitm': [ini['mitm'], rsp['mitm']]}
 
     ev_i, ev_r = out['events']['i'], out['events']['r']
@@ -110,6 +114,12 @@ def judge(case, out):
                 neg.append(f'{me}.compare=no')
             elif e[0] == 'input' and e[1] != 'right':
                 neg.append(f'{me}.number={e[1]}')
+    if method == 'PK' and disp == 'B':
+        # both users type: when both mistype in the same way they have typed the same number, which is a correct entry
+        wi = [x[2:] for x in neg if x.startswith('i.number=wrong')]
+        wr = [x[2:] for x in neg if x.startswith('r.number=wrong')]
+        if wi and wr and wi == wr:
+            neg = [x for x in neg if not x[2:].startswith('number=wrong')]
     tampered = bool(out['tamper_applied'])
     honest = not neg and not tampered
     if case.get('tamper') and not tampered:
@@ -130,7 +140,7 @@ def judge(case, out):
     if pending or out['hang']:
         bad(
             'never_concludes',
-            {'sc': sc, 'dev': devs, 'pending': pending},
+            {'sc': sc, 'dev': sig_devs, 'pending': pending},
             f'pairing did not conclude on both sides at quiescence (+120 s virtual): pending {pending}; '
             f'initiator: pair()={pr} events={[e[0] for e in ev_i]}; responder events={[e[0] for e in ev_r]}; '
             f'loop exceptions={out["loop_exceptions"][:2]}',
@@ -450,7 +460,8 @@ OOB_CELLS = [
 # workers
 # ---------------------------------------------------------------------------
 def w_cases(arg):
-    name, cases, deadline = arg
+    name, cases, deadline, minimal = arg
+    minimal = set(map(tuple, minimal or ()))
     st = core.Stats(name)
     for c in cases:
         if deadline and time.time() > deadline:
@@ -471,13 +482,18 @@ def w_cases(arg):
         for r in klass[6]:
             st.count(f'reenc_{r[0]}_{"required" if r[1] else "optional"}_{r[2]}')
         for check, sig, msg in viol:
+            d = sig.get('dev') or []
+            if len(d) > 1 and any((check, x) in minimal for x in d):
+                # the same check already fails with one of these deviations alone: the minimal case is reported, not this one
+                st.count('double_deviation_reobserves_single')
+                continue
             st.violation(check, sig, msg, c)
         if len(st.samples) < 1:
             st.samples.append({'case': c, 'outcome_class': [str(x) for x in klass]})
     return st
 
 
-def run_batch(ctx, name, cases, deadline=None):
+def run_batch(ctx, name, cases, deadline=None, minimal=None):
     st = ctx.sub(name)
     if not cases:
         return
@@ -485,7 +501,7 @@ def run_batch(ctx, name, cases, deadline=None):
     k = ctx.seed % max(1, len(cases))
     cases = cases[k:] + cases[:k]
     parts = core.split(cases, ctx.jobs * 6)
-    for r in core.pmap(w_cases, [(name, p, deadline) for p in parts], ctx.jobs):
+    for r in core.pmap(w_cases, [(name, p, deadline, minimal) for p in parts], ctx.jobs):
         st.merge(r)
     ctx.log(f'{name}:', st.summary())
 
@@ -557,9 +573,14 @@ def run(ctx: core.Context) -> int:
     quick = ctx.quick
     only = getattr(ctx, 'only', None)
     seed = ctx.seed
-    t0 = time.time()
-    budget = 75.0 if quick else 840.0
-    deadline = t0 + budget
+    # wall-clock allowances per phase, measured from the start of the phase: a safety net for an overloaded
+    # machine only (when one is hit the evidence says so and `exhaustive` is false); sized at >= 4x the time
+    # the phase needs on 16 idle cores
+    allow = (
+        {'single': 35.0, 'double': 0.0, 'masks': 15.0, 'schedules': 25.0}
+        if quick
+        else {'single': 180.0, 'double': 240.0, 'masks': 300.0, 'schedules': 200.0}
+    )
     self_check(seed)
     public_ok = probe_public_addresses(seed)
     # everything imported so far (bumble is large) is moved out of the collector's sight: without this every
@@ -613,6 +634,10 @@ def run(ctx: core.Context) -> int:
                         continue
                 add(apply(b, patch))
         n1 = len(cases)
+        ctx.log(f'deviations: {n1} single')
+        run_batch(ctx, 'deviations', cases, deadline=time.time() + allow['single'])
+        cases = []
+        minimal = sorted({(v.check, d) for v in ctx.sub('deviations').violations for d in v.signature.get('dev') or []})
         if not quick:
             # pairs of deviations from different dimensions on the 50 cells where both sides ask for MITM
             # protection and agree on legacy / SC (one per Table 2.8 entry and pairing flavour)
@@ -628,8 +653,8 @@ def run(ctx: core.Context) -> int:
                     if 'kd' in (d1, d2) and (('addr',), 'default') in (p1[0], p2[0]):
                         continue  # the default identity (public) address needs the identity to be distributed both ways
                     add(apply(b, p1 + p2))
-        ctx.log(f'deviations: {n1} single, {len(cases) - n1} double')
-        run_batch(ctx, 'deviations', cases, deadline=t0 + budget * 0.6)
+            ctx.log(f'deviations: {len(cases)} double')
+            run_batch(ctx, 'deviations', cases, deadline=time.time() + allow['double'], minimal=minimal)
 
     if not only or 'masks' in only:
         cases = []
@@ -653,11 +678,12 @@ def run(ctx: core.Context) -> int:
                 if k not in seen:
                     seen.add(k)
                     cases.append(c)
-        run_batch(ctx, 'masks', cases, deadline=t0 + budget * 0.85)
+        run_batch(ctx, 'masks', cases, deadline=time.time() + allow['masks'])
 
     if not only or 'schedules' in only:
         st = ctx.sub('schedules')
         names = list(SCHED_CASES)
+        deadline = time.time() + allow['schedules']
         for name in names:
             long_run = 'sc-PK' in name
             if quick and long_run:
